@@ -165,6 +165,25 @@ def make (c):
 
 def add_var (c, rng, spec):
     n = len (spec ['geo'])
+    # junction points written differently by every wire that ends there (coordinates that come out of different
+    # computations: 0.3, 0.1 + 0.2, 0.7 - 0.4): each wire end moved by up to a fifth of the matching tolerance
+    rf = np.random.default_rng ([c ['seed'], 64, c ['i']])
+    if rf.random () < 0.35 and not spec.get ('sym') and not spec.get ('dist') and all (g ['k'] == 'w' and not g.get ('taper') for g in spec ['geo']) and not str (spec.get ('fam')).startswith (('ratio', 'collinear')):
+        L    = min (np.linalg.norm (np.array (g ['p2']) - np.array (g ['p1'])) / g ['n'] for g in spec ['geo'])
+        keep = [np.array (x ['at']) for x in (spec.get ('src') or []) + (spec.get ('loads') or []) if 'at' in x]
+        spec ['exact_ends'] = [[list (g ['p1']), list (g ['p2'])] for g in spec ['geo']]
+        for g in spec ['geo']:
+            a, b = np.array (g ['p1'], float), np.array (g ['p2'], float)
+            # (a wire that carries a source or load placed by location keeps its coordinates: its nodes are where they are looked for)
+            if any (np.linalg.norm (np.cross (b - a, q - a)) < 1e-9 * np.linalg.norm (b - a) ** 2 and -1e-9 <= (q - a) @ (b - a) / ((b - a) @ (b - a)) <= 1 + 1e-9 for q in keep):
+                continue
+            for e in ('p1', 'p2'):
+                p = np.array (g [e], float)
+                if spec.get ('media') is not None and p [2] == 0:
+                    continue
+                d = rf.normal (size = 3)
+                g [e] = [float (x) for x in p + d / np.linalg.norm (d) * 2e-4 * L * rf.random ()]
+        spec ['fuzzy'] = True
     spec ['var'] = dict ( masks = [[int (x) for x in rng.integers (0, 2, n)] for k in range (2)]
                         , perm = [int (x) for x in rng.permutation (n)]
                         , tags = [int (x) for x in rng.permutation (n) + 1], explicit = bool (rng.random () < 0.5)
@@ -402,6 +421,7 @@ def check (c):
                , ('all',      dict (mask = var ['masks'][0], split = var ['split'], tags = None))
                ]
     kinds = set ()
+    npulses = set ([len (m0.pulses)])
     for name, kw in variants:
         if name.startswith ('reverse') and not any (kw ['mask']):
             continue
@@ -412,6 +432,7 @@ def check (c):
             rngp = np.random.default_rng ([k, n, 77])
             sv ['geo'] = [sv ['geo'][i] for i in rngp.permutation (k)]
         mv = gen.build (sv)
+        npulses.add (len (mv.pulses))       # (a cut on a segment boundary turns an interior pulse into a junction pulse)
         ov = observe_all (mv, pts)
         tol = observe.tol_cond (max (o0 ['cond'], ov ['cond']))
         if tol is None:
@@ -485,6 +506,27 @@ def check (c):
             for v in viol:
                 if v ['key'] != observe.IMP_KEY:
                     v ['key'] = 'exact-kernel-on-short-neighbour'
+    if viol and spec.get ('fuzzy') and spec.get ('exact_ends') and all (v ['key'] != 'current-support' for v in viol) \
+       and all (v.get ('measured', np.inf) <= 100 * v.get ('allowed', 0) for v in viol if v ['key'] != observe.IMP_KEY):
+        # known finding: wire ends that meet only within the matching tolerance (every wire writes the junction point
+        # a little differently). For thick wires (radius above 1e-4 wavelengths, exact kernel) the result then depends
+        # on the direction of the wires at the level of 1e-3 .. 1e-2 of the largest current; thin wires and junctions
+        # written with identical coordinates do not show it. Classified as that finding only if a thick wire is present,
+        # the model has the number of pulses of the same structure with exactly coinciding ends, the excess is moderate
+        # and the same descriptions agree once the ends coincide exactly (experiment made on the spot).
+        lam0 = gen.C_MHZ / m0.f
+        if any (g.r > 1e-4 * lam0 for g in m0.geo):
+            s_ex = copy.deepcopy ({k: v for k, v in spec.items () if k not in ('fuzzy', 'exact_ends')})
+            for g, (a, b) in zip (s_ex ['geo'], spec ['exact_ends']):
+                g ['p1'], g ['p2'] = list (a), list (b)
+            m_ex = gen.build (variant (s_ex))
+            if npulses == set ([len (m_ex.pulses)]):
+                ex = check (s_ex)
+                if ex.get ('status') == 'held':
+                    for v in viol:
+                        if v ['key'] != observe.IMP_KEY:
+                            v ['key'] = 'approximate-junction-thick-wire'
+                            v ['msg'] += ' [ends written with identical coordinates: worst margin %.3g]' % (ex.get ('margin') or 0.0)
     if viol and spec.get ('dist'):
         # known finding: a lossy / insulated wire on a junction of three or more wires. The deviation is classified as
         # that finding only if a loaded object takes part in such a junction and the same descriptions agree
